@@ -34,6 +34,12 @@ func sceneBindingMsg(op int, o BindOpts) {
 		Define(k, ctx, Svc)
 	}
 	Define(k, ctx, "other")
+	Define(k, ctx, Svc+"x") // a defined service whose name extends the target's name
+	// the target service may be reserved by another module (module name differs from the service name)
+	reserved := op == opBind && vf.Bool("reservedByModule")
+	if reserved {
+		_ = k.RegisterModuleService("modx", &types.ModuleService{ServiceName: Svc, Provider: sdk.AccAddress("module-provider______")})
+	}
 	owner := vf.Addr("owner", 20)
 	prov := vf.Addr("prov", 20)
 	signer := owner
@@ -123,6 +129,7 @@ func sceneBindingMsg(op int, o BindOpts) {
 	// ---- general clauses
 	chk("C13 C05", k.GetWithdrawAddress(ctx, owner).Equals(wa), "withdraw-address-untouched-by-binding-messages")
 	chk("C15", found == vf.Or(present, vf.And(op == opBind, err == nil)), "binding-exists-iff-bound")
+	chk("C05", vf.Implies(reserved, err != nil), "module-reserved-service-cannot-be-bound")
 	chk("C05", vf.Implies(vf.And(err == nil, vf.Or(present, owned)), rightful), "only-the-owner-acts")
 	chk("C03 C04", vf.Supply().Equal(supply0), "no-burn-by-binding-messages")
 	defAfter, defOK := k.GetServiceDefinition(ctx, "other")
@@ -139,6 +146,8 @@ func sceneBindingMsg(op int, o BindOpts) {
 		chk("C03 C05", vf.All(depAcc1.Equal(depAcc), balS1.Equal(balS)), "rejected-no-money-moves")
 		if present {
 			chk("C15 C14 C03", vf.All(post.Deposit.AmountOf(Denom).Equal(pre.Deposit), post.Available == pre.Available, post.Pricing == pre.Text, post.QoS == pre.QoS, post.DisabledTime.Equal(pre.DisabledTime)), "rejected-binding-unchanged")
+			// what later blocks will charge is the committed price, whatever a rejected message carried
+			chk("C15 C14 C07 C20", k.GetPricing(ctx, Svc, prov).Price.AmountOf(Denom).Equal(pre.Pricing.Price.AmountOf(Denom)), "rejected-message-leaves-price-terms")
 		}
 		return
 	}
@@ -149,7 +158,9 @@ func sceneBindingMsg(op int, o BindOpts) {
 	chk("C15", vf.All(post.ServiceName == Svc, post.Provider.Equals(prov), post.Owner.Equals(owner) || !present && !owned), "binding-identity")
 	own, hasOwn := k.GetOwner(ctx, prov)
 	chk("C15", vf.And(hasOwn, own.Equals(post.Owner)), "provider-has-one-owner")
-	chk("C15", vf.All(vf.Store(ctx).Has(types.GetOwnerServiceBindingKey(post.Owner, Svc, prov)), vf.Store(ctx).Has(types.GetOwnerProviderKey(post.Owner, prov))), "owner-indexes-present")
+	chk("C15 C17", vf.All(vf.Store(ctx).Has(types.GetOwnerServiceBindingKey(post.Owner, Svc, prov)), vf.Store(ctx).Has(types.GetOwnerProviderKey(post.Owner, prov))), "owner-indexes-present")
+	lst := k.GetOwnerServiceBindings(ctx, post.Owner, Svc)
+	chk("C15 C17", len(lst) == 1, "binding-listed-for-its-owner")
 	stored := k.GetPricing(ctx, Svc, prov)
 	reparsed, rerr := k.ParsePricing(ctx, post.Pricing)
 	chk("C15 C07", vf.And(rerr == nil, stored.Price.AmountOf(Denom).Equal(reparsed.Price.AmountOf(Denom))), "stored-price-matches-published-text")
